@@ -197,9 +197,9 @@ def log_of_base(x, ans):
     return anp.log(x + 0j) if anp.iscomplexobj(ans) else anp.log(x)
 
 
-def is_discrete(ans):
-    # an integer or boolean result is a piecewise-constant function of its floating-point inputs: the derivative is zero
-    return anp.result_type(ans).kind not in "fc"
+def is_discrete(ans, x):
+    # an integer or boolean result is a piecewise-constant function of a floating-point input x: the derivative is zero
+    return anp.result_type(ans).kind not in "fc" and anp.result_type(x).kind in "fc"
 
 
 def resolve_order(x, order):
@@ -262,7 +262,7 @@ defvjp(
 defvjp(
     anp.full,
     lambda ans, shape, fill_value, dtype=None: (
-        (lambda g: vspace(fill_value).zeros()) if is_discrete(ans) else unbroadcast_f(fill_value, lambda g: g)
+        (lambda g: vspace(fill_value).zeros()) if is_discrete(ans, fill_value) else unbroadcast_f(fill_value, lambda g: g)
     ),
     argnums=(1,),
 )
@@ -317,7 +317,7 @@ defvjp(
 defvjp(
     anp._astype,
     lambda ans, A, dtype, order="K", casting="unsafe", subok=True, copy=True: (
-        (lambda g: vspace(A).zeros()) if is_discrete(ans) else (lambda g: anp._astype(g, A.dtype))
+        (lambda g: vspace(A).zeros()) if is_discrete(ans, A) else (lambda g: anp._astype(g, A.dtype))
     ),
 )
 
@@ -1018,7 +1018,7 @@ def replace_zero(x, val):
 def array_from_args_gradmaker(argnum, ans, args, kwargs):
     # ndmin may have prepended axes of length one to the stacked result
     extra = anp.ndim(ans) - anp.ndim(args[argnum]) - 1
-    if is_discrete(ans):  # dtype=int / bool requested
+    if is_discrete(ans, args[argnum]):  # dtype=int / bool requested
         return lambda g: vspace(args[argnum]).zeros()
     return lambda g: match_complex(args[argnum], g[(0,) * extra + (argnum - 2,)])
 
@@ -1029,7 +1029,7 @@ defvjp_argnum(anp.array_from_args, array_from_args_gradmaker)
 def array_from_scalar_or_array_gradmaker(ans, array_args, array_kwargs, scarray):
     ndmin = array_kwargs.get("ndmin", 0)
     scarray_ndim = anp.ndim(scarray)
-    if is_discrete(ans):  # dtype=int / bool requested
+    if is_discrete(ans, scarray):  # dtype=int / bool requested
         return lambda g: vspace(scarray).zeros()
     # (a complex dtype= may have been requested for real input: the cotangent goes back to the kind of the input)
     if ndmin > scarray_ndim:
